@@ -137,6 +137,10 @@ def _parse_color_arg(colors, ids, id_kind="edges"):
             values = list(colors.values())
         colors = np.array(values)
 
+    # a single color given by name; decided before the conversion, because "none"
+    # converts to an empty array
+    single_color = isinstance(colors, str) and is_color_like(colors)
+
     # see if input format needs to be mapped to colors (if numeric)
     try:  # see if the input format is compatible with PatchCollection's facecolor
         colors = to_rgba_array(colors)
@@ -148,7 +152,7 @@ def _parse_color_arg(colors, ids, id_kind="edges"):
         except:
             raise ValueError("Invalid input format for colors.")
 
-    if not is_color_like(colors) and len(colors) != xsize:
+    if not single_color and not is_color_like(colors) and len(colors) != xsize:
         raise ValueError(
             f"The input color argument must be a single color or its length must match the number of plotted elements ({xsize})."
         )
